@@ -564,6 +564,12 @@ def _get_doc(doc: Optional[str]) -> str:
     return []
 
 
+def _serde_camel_case(snake_name: str) -> str:
+    """The name serde's `rename_all = "camelCase"` derives from a snake_case field."""
+    head, *rest = snake_name.split("_")
+    return head + "".join(part[:1].upper() + part[1:] for part in rest)
+
+
 def generate_property(
     prop_def: model.Property, types: TypeData, spec: model.LSPModel
 ) -> str:
@@ -577,8 +583,11 @@ def generate_property(
         else []
     )
 
-    if prop_name in ["type"]:
-        prop_name = f"{prop_name}_"
+    if prop_name in ["type"] or _serde_camel_case(prop_name) != prop_def.name:
+        # The struct's `rename_all = "camelCase"` rule would not give back the wire name
+        # (`type_`, `_meta`, `baseURI`, `content_type`, ...): state it explicitly.
+        if prop_name in ["type"]:
+            prop_name = f"{prop_name}_"
         if optional:
             optional = [
                 f'#[serde(rename = "{prop_def.name}", skip_serializing_if = "Option::is_none")]'
